@@ -29,10 +29,10 @@ Theorem canon_case_rdata :
     canon_rr sig {| r_owner := o; r_type := ty; r_class := cl; r_ttl := t; r_rdata := fs2 |}.
 Proof. exact DnssecProofs.canon_case_rdata. Qed.
 
-(* the code's list against RFC 4034 6.2 (3) (with RFC 6840 5.1): NXT (30), A6 (38)
-   and RRSIG (46) are in the RFC's list and not in the code's *)
+(* the code's list against RFC 4034 6.2 (3) (with RFC 6840 5.1): only A6 (38, no Go
+   type) and RRSIG (46, never the covered type) are in the RFC's list and not in the code's *)
 Theorem lowered_types_vs_rfc4034_6_2 :
-  forall ty, mem ty rfc4034_6_2_types = lowered ty || (ty =? 30) || (ty =? 38) || (ty =? 46).
+  forall ty, mem ty rfc4034_6_2_types = lowered ty || (ty =? 38) || (ty =? 46).
 Proof. exact lowered_vs_rfc. Qed.
 
 (* ... wildcard expansion consistent with the Labels field (6.2 (4)): an owner
